@@ -362,6 +362,7 @@ struct World
     void audit_table_row(int64_t id, const djinterop::engine::v2::track_row& row, const std::string& op);
     void corrupt_blob(const Step& s, int track_index);
     void corrupt_pages(const Step& s);
+    void corrupt_grid(const Step& s, int track_index);
     bool exec_hostile_op(const Step& s);  // hostile.cpp
     bool exec_detect_op(const Step& s);   // detect.cpp (C13)
     bool exec_drift_op(const Step& s);    // drift.cpp (C17)
